@@ -204,6 +204,16 @@ class VttContext:
       self._paragraphs.pop()
       self._captions_counter -= 1
 
+  def process_div(self, region: ISD.Region, element: model.ContentElement, begin: Fraction, end: Optional[Fraction]):
+    """Process div element, including nested div elements"""
+
+    if isinstance(element, model.Div):
+      for elem in list(element):
+        self.process_div(region, elem, begin, end)
+
+    if isinstance(element, model.P):
+      self.process_p(region, element, begin, end)
+
   def add_isd(self, isd: ISD, begin: Fraction, end: Optional[Fraction]):
     """Converts and appends ISD content to VTT content"""
 
@@ -230,8 +240,7 @@ class VttContext:
 
       for body in region:
         for div in list(body):
-          for p in list(div):
-            self.process_p(region, p, begin, end)
+          self.process_div(region, div, begin, end)
 
     if is_isd_empty:
       LOGGER.debug("Skipping empty paragraph.")
